@@ -5,6 +5,9 @@ import operator_common as O
 
 def run(res, tier, seed):
     res.trusted_base += [
+        'translator T3 (translate/t3_stencil.py): NODE_BUILD_SOLVER_MATRIX_TAKE (with its mutable offset/row/col/val locals), UPDATE_MATRIX_ELEMENT, '
+        'the five slot tables, getStencil and getStencilSize regenerated into gen/StencilGen.v; StencilTie.v proves the stored (column, value) pairs equal '
+        'to the residual operator row and the slots distinct and in range; the give assembly is tied by the K-matrix only',
         'K-matrix: the CSR matrices assembled by DirectSolverGiveCustomLU / DirectSolverTakeCustomLU (read through the guarded '
         'friend accessor, hook H2) are compared row by row with the model rows of the operator A (StencilDefs.v) in exact rationals; '
         'K-solve: solveInPlace on unit / random / huge-dynamic-range right-hand sides, residual measured by the independent '
@@ -17,6 +20,10 @@ def run(res, tier, seed):
         'given that the CSR rows equal the model rows (checked for every row on every run)',
         'rounding: residual bound 1e-10 relative to ||A|| ||x|| + ||b|| is measured, not proved',
     ]
+    for n, ok, msg in C.run_translators(['t3_stencil']):
+        res.obligation('translator:' + n, ok, msg[-300:])
+        if not ok:
+            res.fail('translator:' + n, msg)
     cr = C.coq_build('C04')
     res.add_coq(cr)
     out = O.run(res, tier, seed, 'direct', ('csrgive', 'csrtake'))
